@@ -509,9 +509,10 @@ def createPool (cfg : Cfg) (s : State) (app creator pair : Nat) (ranged : Bool) 
           | none => none
           | some s3 =>
             let ps := max ammPs ac.minInitSupply
-            let s4 : State := { s3 with pools := s3.pools ++
-              [{ app := app, id := id, pair := pair, ranged := ranged, disabled := false, ps := 0, lastDep := 0, lastWdr := 0 }] }
-            (s4.mint app id ps).send .module (.user creator) (.pool app id) ps
+            -- the pool record, and `MintCoins(ModuleName, ps poolCoin)` of the brand-new pool coin denom
+            let q : Pool := { app := app, id := id, pair := pair, ranged := ranged, disabled := false, ps := ps, lastDep := 0, lastWdr := 0 }
+            let s4 : State := { s3 with pools := s3.pools ++ [q], bank := s3.bank.add .module (.pool app id) ps }
+            s4.send .module (.user creator) (.pool app id) ps
 
 /-! ## Deposit / withdraw requests (pool.go:364-669) -/
 
